@@ -107,6 +107,25 @@ def handle (line : String) : String :=
         String.join (vs.map (fun v => match v with | Val.null => "0" | _ => "1")))
       s!"F sev={e.short} exit={p21readExit e} | " ++ " | ".intercalate per
     | _, _ => "bad-op"
+  | "readx" :: tc :: st :: "|" :: rest =>
+    -- complex instances whose parts may carry redefining entries: `X part ; part …`; tc = 1: `RD` words, tc = 0: `RD:<TOK>` words
+    let b := fun (x : String) => if x = "1" then some true else if x = "0" then some false else none
+    match b tc, b st with
+    | some tc, some strict =>
+      let parseI := fun (g : List String) => match g with
+        | "X" :: r => (splitOnWord ";" r).mapM (fun ws => if tc then parseSlots ws else parseSlotsPre ws)
+        | _ => none
+      match (splitOnWord "|" rest).mapM parseI with
+      | some insts =>
+        let results := insts.map (fun ps =>
+          let (s, vs) := complexReadLS codeShape tc (fileStrictFor true strict) ps
+          ((⟨s, true⟩ : InstResult), vs))
+        let e := fileSev (results.map (·.1))
+        let per := results.map (fun (r, vs) => s!"{r.sev.short}/{stName (nodeState r)}/" ++
+          ",".intercalate (vs.map (fun v => String.join (v.map (fun x => match x with | Val.null => "0" | _ => "1")))))
+        s!"F sev={e.short} exit={p21readExit e} | " ++ " | ".intercalate per
+      | none => "bad-op"
+    | _, _ => "bad-op"
   | "read" :: st :: "|" :: rest =>
     match (if st = "1" then some true else if st = "0" then some false else none),
           (splitOnWord "|" rest).mapM parseInst with
